@@ -87,8 +87,21 @@ def build_world(arch):
     arch = set(arch)
     sc = G.scenario()
     sc.author, sc.affiliation, sc.source, sc.tags = "a", "b", "c", {Tag.URBAN}
-    l1 = G.lanelet(1, 0.0, 0.0, 10.0, 2.0, n=3, successor=[2], traffic_signs={30}, traffic_lights={40})
-    l2 = G.lanelet(2, 10.0, 0.0, 10.0, 2.0, n=3, predecessor=[1])
+    # lanelets carry non-default optional data (line markings of every drawing style, stop line, types, users,
+    # adjacency): side effects of read-only code are conditional on such data
+    from commonroad.common.common_lanelet import LaneletType, LineMarking, RoadUser, StopLine
+    l1 = G.lanelet(1, 0.0, 0.0, 10.0, 2.0, n=3, successor=[2], traffic_signs={30}, traffic_lights={40},
+                   line_marking_left_vertices=LineMarking.SOLID, line_marking_right_vertices=LineMarking.BROAD_SOLID,
+                   stop_line=StopLine(np.array([9.0, 0.0]), np.array([9.0, 2.0]), LineMarking.SOLID, {30}, {40}),
+                   lanelet_type={LaneletType.URBAN}, user_one_way={RoadUser.CAR, RoadUser.BUS},
+                   adjacent_left=3, adjacent_left_same_direction=False)
+    l2 = G.lanelet(2, 10.0, 0.0, 10.0, 2.0, n=3, predecessor=[1], line_marking_left_vertices=LineMarking.CURB,
+                   line_marking_right_vertices=LineMarking.DASHED, user_bidirectional={RoadUser.BICYCLE})
+    l3 = G.lanelet_from_polylines(3, [[10.0, 2.0], [5.0, 2.0], [0.0, 2.0]], [[10.0, 4.0], [5.0, 4.0], [0.0, 4.0]],
+                                  adjacent_left=1, adjacent_left_same_direction=False,
+                                  line_marking_left_vertices=LineMarking.SOLID_SOLID,
+                                  line_marking_right_vertices=LineMarking.BROAD_DASHED)
+    sc.add_objects(l3)
     sc.add_objects([l1, l2])
     sc.add_objects(G.sign(30, (1.0, 3.0)), {1})
     sc.add_objects(G.light(40, (2.0, 3.0)), {1})
